@@ -174,20 +174,22 @@ theorem level_beyond (k : Nat) (tree : List Nat) (L : Nat) (hL : tree.length ≤
     rw [List.filter_cons, hne]
     simpa using ih _ (lvl + 1)
 
-/-! ### every node of the tree is recognised by `inTree` -/
+/-! ### every node of the tree is recognised by `inTree` at its own level -/
 
-/-- a sequence of `_<digits>` segments -/
-inductive GoodSfx : List Char → Prop
-  | nil : GoodSfx []
-  | seg (ds rest : List Char) : ds ≠ [] → (∀ c ∈ ds, c.isDigit = true) → GoodSfx rest → GoodSfx ('_' :: (ds ++ rest))
+/-- a sequence of `k` segments `_<digits>` -/
+inductive GoodSfx : Nat → List Char → Prop
+  | nil : GoodSfx 0 []
+  | seg (k : Nat) (ds rest : List Char) : ds ≠ [] → (∀ c ∈ ds, c.isDigit = true) → GoodSfx k rest →
+      GoodSfx (k + 1) ('_' :: (ds ++ rest))
 
-theorem goodSfx_append {a b : List Char} (ha : GoodSfx a) (hb : GoodSfx b) : GoodSfx (a ++ b) := by
+theorem goodSfx_append {a b : List Char} {m n : Nat} (ha : GoodSfx m a) (hb : GoodSfx n b) : GoodSfx (m + n) (a ++ b) := by
   induction ha with
   | nil => simpa using hb
-  | seg ds rest hne hd _ ih =>
-    have : '_' :: (ds ++ rest) ++ b = '_' :: (ds ++ (rest ++ b)) := by simp
-    rw [this]
-    exact GoodSfx.seg ds (rest ++ b) hne hd ih
+  | seg k ds rest hne hd _ ih =>
+    have h1 : '_' :: (ds ++ rest) ++ b = '_' :: (ds ++ (rest ++ b)) := by simp
+    have h2 : k + 1 + n = (k + n) + 1 := by omega
+    rw [h1, h2]
+    exact GoodSfx.seg (k + n) ds (rest ++ b) hne hd ih
 
 theorem not_underscore_of_digit {c : Char} (h : c.isDigit = true) : (c == '_') = false := by
   rw [beq_eq_false_iff_ne]
@@ -205,20 +207,31 @@ theorem digitSegs_digits (ds rest : List Char) (ne : Bool) (hd : ∀ c ∈ ds, c
     rw [ih true (fun x hx => hd x (by simp [hx]))]
     simp
 
-theorem digitSegs_good {rest : List Char} (h : GoodSfx rest) : digitSegs rest true = true := by
+theorem digitSegs_good {k : Nat} {rest : List Char} (h : GoodSfx k rest) : digitSegs rest true = true := by
   induction h with
   | nil => rfl
-  | seg ds rest' hne hd _ ih =>
+  | seg k ds rest' hne hd _ ih =>
     simp only [digitSegs, beq_self_eq_true, if_true, Bool.true_and]
     rw [digitSegs_digits ds rest' false hd]
     have : (!ds.isEmpty) = true := by cases ds <;> simp_all
     simpa [this] using ih
 
-theorem inTree_of_sfx (root name : String) (sfx : List Char) (hs : GoodSfx sfx) (hne : sfx ≠ [])
-    (hn : name.toList = root.toList ++ sfx) : inTree root name = true := by
+/-- underscores in `k` good segments: exactly `k` -/
+theorem underscores_good {k : Nat} {cs : List Char} (h : GoodSfx k cs) : (cs.filter (· == '_')).length = k := by
+  induction h with
+  | nil => rfl
+  | seg k ds rest _ hd _ ih =>
+    have hds : ds.filter (· == '_') = [] := by
+      rw [List.filter_eq_nil_iff]
+      intro c hc
+      simp [not_underscore_of_digit (hd c hc)]
+    simp [List.filter_cons, List.filter_append, hds, ih]
+
+theorem inTree_of_sfx (root name : String) (k : Nat) (lvl : Int) (sfx : List Char) (hs : GoodSfx k sfx) (hk : 0 < k)
+    (hl : (k : Int) ≤ lvl + 1) (hn : name.toList = root.toList ++ sfx) : inTree root lvl name = true := by
   cases hs with
-  | nil => exact absurd rfl hne
-  | seg ds rest hdne hd hrest =>
+  | nil => omega
+  | seg k' ds rest hdne hd hrest =>
     unfold inTree
     have hp : (root ++ "_").toList = root.toList ++ ['_'] := by simp [String.toList_append]
     have hpre : (root ++ "_").toList.isPrefixOf name.toList = true := by
@@ -228,25 +241,34 @@ theorem inTree_of_sfx (root name : String) (sfx : List Char) (hs : GoodSfx sfx) 
       rw [hp, hn]
       have : root.toList ++ '_' :: (ds ++ rest) = (root.toList ++ ['_']) ++ (ds ++ rest) := by simp
       rw [this, List.drop_left]
-    rw [hpre, hdrop, digitSegs_digits ds rest false hd]
+    have hcount : segCount (ds ++ rest) = k' + 1 := by
+      unfold segCount
+      have hds : ds.filter (· == '_') = [] := by
+        rw [List.filter_eq_nil_iff]
+        intro c hc
+        simp [not_underscore_of_digit (hd c hc)]
+      rw [List.filter_append, hds, List.nil_append, underscores_good hrest]
+    rw [hpre, hdrop, digitSegs_digits ds rest false hd, hcount]
     have : (!ds.isEmpty) = true := by cases ds <;> simp_all
     simp [this, digitSegs_good hrest]
+    right
+    omega
 
 /-- the characters of `"_" ++ toString i` are one good segment -/
-theorem goodSfx_index (i : Nat) : GoodSfx ('_' :: (toString i).toList) := by
-  have h := GoodSfx.seg (Nat.toDigits 10 i) [] Nat.toDigits_ne_nil
+theorem goodSfx_index (i : Nat) : GoodSfx 1 ('_' :: (toString i).toList) := by
+  have h := GoodSfx.seg 0 (Nat.toDigits 10 i) [] Nat.toDigits_ne_nil
     (fun c hc => Nat.isDigit_of_mem_toDigits (by decide) (by decide) hc) GoodSfx.nil
   have ht : (toString i).toList = Nat.toDigits 10 i := by
     rw [Nat.toString_eq_ofList_toDigits, String.toList_ofList]
   rw [ht]
   simpa using h
 
-/-- every node the constructor creates under a parent whose name is `root` plus good segments is
-    `root` plus (non-empty) good segments -/
+/-- every node the constructor creates under a parent whose name is `root` plus `lvl` good segments is `root` plus
+    (its own level + 1) good segments -/
 theorem tree_names (k : Nat) (tree : List Nat) (root : String) :
-    ∀ (fuel : Nat) (parent : String) (lvl : Nat) (sfx : List Char), GoodSfx sfx →
+    ∀ (fuel : Nat) (parent : String) (lvl : Nat) (sfx : List Char), GoodSfx lvl sfx →
       parent.toList = root.toList ++ sfx →
-      ∀ n ∈ treeNodes k tree fuel parent lvl, ∃ s, GoodSfx s ∧ s ≠ [] ∧ n.name.toList = root.toList ++ s := by
+      ∀ n ∈ treeNodes k tree fuel parent lvl, ∃ l s, n.lvl = some l ∧ GoodSfx (l + 1) s ∧ n.name.toList = root.toList ++ s := by
   intro fuel
   induction fuel with
   | zero => intro parent lvl sfx _ _ n hn; simp [treeNodes] at hn
@@ -259,16 +281,22 @@ theorem tree_names (k : Nat) (tree : List Nat) (root : String) :
     obtain ⟨i, _, hmem⟩ := List.mem_flatMap.1 hn
     have hchild : (parent ++ "_" ++ toString i).toList = root.toList ++ (sfx ++ '_' :: (toString i).toList) := by
       simp [String.toList_append, hp]
-    have hgood : GoodSfx (sfx ++ '_' :: (toString i).toList) := goodSfx_append hs (goodSfx_index i)
+    have hgood : GoodSfx (lvl + 1) (sfx ++ '_' :: (toString i).toList) := goodSfx_append hs (goodSfx_index i)
     rcases List.mem_cons.1 hmem with rfl | hrec
-    · exact ⟨_, hgood, by simp, hchild⟩
+    · exact ⟨lvl, _, rfl, hgood, hchild⟩
     · exact ih _ (lvl + 1) _ hgood hchild n hrec
 
-theorem tree_inTree (k : Nat) (tree : List Nat) (root : String) (fuel lvl : Nat) :
-    ∀ n ∈ treeNodes k tree fuel root lvl, inTree root n.name = true := by
-  intro n hn
-  obtain ⟨s, hs, hne, hname⟩ := tree_names k tree root fuel root lvl [] GoodSfx.nil (by simp) n hn
-  exact inTree_of_sfx root n.name s hs hne hname
+/-- a node of the tree that is on level `L` is recognised when level `L` is asked for -/
+theorem tree_inTree (k : Nat) (tree : List Nat) (root : String) (fuel : Nat) (L : Nat) :
+    ∀ n ∈ treeNodes k tree fuel root 0, atLevel L n = true → inTree root (L : Int) n.name = true := by
+  intro n hn hat
+  obtain ⟨l, s, hl, hs, hname⟩ := tree_names k tree root fuel root 0 [] GoodSfx.nil (by simp) n hn
+  have : l = L := by
+    unfold atLevel at hat
+    rw [hl] at hat
+    simpa using hat
+  subst this
+  exact inTree_of_sfx root n.name (l + 1) (l : Int) s hs (by omega) (by omega) hname
 
 /-! ### the level selector on the built graph -/
 
@@ -285,31 +313,45 @@ theorem atLevel_cast (L : Nat) (n : Node) :
         rw [beq_eq_false_iff_ne]; intro hc; exact h (by exact_mod_cast hc)
       simp [h, this]
 
+theorem filter_filter_of_imp {α : Type} (l : List α) (p q : α → Bool) (h : ∀ x ∈ l, q x = true → p x = true) :
+    (l.filter p).filter q = l.filter q := by
+  induction l with
+  | nil => rfl
+  | cons x xs ih =>
+    have ih' := ih (fun y hy => h y (by simp [hy]))
+    by_cases hq : q x = true
+    · have hp := h x (by simp) hq
+      simp [List.filter_cons, hp, hq, ih']
+    · by_cases hp : p x = true
+      · simp [List.filter_cons, hp, hq, ih']
+      · simp [List.filter_cons, hp, hq, ih']
+
 /-- **selecting level `L` of tree `nm`** in any graph that holds the constructor's nodes for it — among whatever
-    was there before (`pre`) and came after (`post`), as long as none of that is named like a node of this tree —
-    returns the routers `<nm>_<i0>_…_<iL>` for all index tuples below the fan-outs, first index outermost; beyond the
-    depth of the tree, nothing -/
-theorem lvl_select_in (G : Graph) (nm : String) (tree : List Nat) (k fuel : Nat) (pre post : List Node)
+    was there before (`pre`) and came after (`post`), as long as none of that is named like a node of this tree that
+    could sit on level `L` — returns the routers `<nm>_<i0>_…_<iL>` for all index tuples below the fan-outs, first
+    index outermost; beyond the depth of the tree, nothing -/
+theorem lvl_select_in (G : Graph) (nm : String) (tree : List Nat) (k fuel : Nat) (pre post : List Node) (L : Nat)
     (hG : G.nodes = pre ++ treeNodes k tree fuel nm 0 ++ post) (hfuel : tree.length ≤ fuel)
-    (hpre : ∀ n ∈ pre, inTree nm n.name = false) (hpost : ∀ n ∈ post, inTree nm n.name = false) (L : Nat) :
+    (hpre : ∀ n ∈ pre, inTree nm (L : Int) n.name = false) (hpost : ∀ n ∈ post, inTree nm (L : Int) n.name = false) :
     nodesFromLvl G nm (L : Int) =
       .ok (if L < tree.length then prodNames nm (tree.take (L + 1)) else []) := by
   rw [C18.lvl_spec, hG]
   congr 1
   simp only [List.filter_append, List.map_append]
-  have hnil : ∀ l : List Node, (∀ n ∈ l, inTree nm n.name = false) → l.filter (fun n => inTree nm n.name) = [] := by
+  have hnil : ∀ l : List Node, (∀ n ∈ l, inTree nm (L : Int) n.name = false) →
+      l.filter (fun n => inTree nm (L : Int) n.name) = [] := by
     intro l hl
     rw [List.filter_eq_nil_iff]
     intro n hn; simp [hl n hn]
-  have h2 : (treeNodes k tree fuel nm 0).filter (fun n => inTree nm n.name) = treeNodes k tree fuel nm 0 := by
-    rw [List.filter_eq_self]
-    intro n hn; exact tree_inTree k tree nm fuel 0 n hn
-  rw [hnil pre hpre, hnil post hpost, h2]
+  rw [hnil pre hpre, hnil post hpost]
   simp only [List.filter_nil, List.map_nil, List.nil_append, List.append_nil]
-  have h3 : (treeNodes k tree fuel nm 0).filter (fun n => n.lvl.map (fun (l : Nat) => (l : Int)) == some (L : Int)) =
+  have h3 : ((treeNodes k tree fuel nm 0).filter (fun n => inTree nm (L : Int) n.name)).filter
+        (fun n => n.lvl.map (fun (l : Nat) => (l : Int)) == some (L : Int)) =
       (treeNodes k tree fuel nm 0).filter (atLevel L) := by
-    apply List.filter_congr
-    intro n _; exact atLevel_cast L n
+    have hc : (fun (n : Node) => n.lvl.map (fun (l : Nat) => (l : Int)) == some (L : Int)) = atLevel L := by
+      funext n; exact atLevel_cast L n
+    rw [hc]
+    exact filter_filter_of_imp _ _ _ (fun n hn hat => tree_inTree k tree nm fuel L n hn hat)
   rw [h3]
   by_cases hL : L < tree.length
   · rw [if_pos hL, level_of_tree k tree L hL fuel nm 0 (by omega) (by omega)]
@@ -317,13 +359,44 @@ theorem lvl_select_in (G : Graph) (nm : String) (tree : List Nat) (k fuel : Nat)
   · rw [if_neg hL, level_beyond k tree L (by omega) fuel nm 0]
 
 /-- … in particular right after the constructor ran -/
-theorem lvl_select_tree (g g' : Graph) (nm : String) (tree : List Nat) (k : Nat) (c : Bool) (fuel : Nat)
+theorem lvl_select_tree (g g' : Graph) (nm : String) (tree : List Nat) (k : Nat) (c : Bool) (fuel : Nat) (L : Nat)
     (h : g.addNodesAsTree nm tree k c fuel 0 = .ok g') (hfuel : tree.length ≤ fuel)
-    (hfree : ∀ n ∈ g.nodes, inTree nm n.name = false) (L : Nat) :
+    (hfree : ∀ n ∈ g.nodes, inTree nm (L : Int) n.name = false) :
     nodesFromLvl g' nm (L : Int) =
       .ok (if L < tree.length then prodNames nm (tree.take (L + 1)) else []) :=
-  lvl_select_in g' nm tree k fuel g.nodes [] (by rw [tree_nodes tree k c fuel g g' nm 0 h]; simp) hfuel hfree
-    (by intro n hn; cases hn) L
+  lvl_select_in g' nm tree k fuel g.nodes [] L (by rw [tree_nodes tree k c fuel g g' nm 0 h]; simp) hfuel hfree
+    (by intro n hn; cases hn)
+
+/-- a second tree called `<nm>_<j>` does not disturb the selection: none of its nodes can sit on the level asked for
+    (a node of its level `l` carries `l + 2` segments after `nm`, a router of level `l` of `nm` at most `l + 1`) -/
+theorem other_tree_excluded (nm : String) (L : Nat) (name : String) (m : Nat) (sfx : List Char) (hs : GoodSfx m sfx)
+    (hm : L + 1 < m) (hn : name.toList = nm.toList ++ sfx) : inTree nm (L : Int) name = false := by
+  cases hs with
+  | nil => omega
+  | seg k' ds rest hdne hd hrest =>
+    unfold inTree
+    have hne : (name == nm) = false := by
+      rw [beq_eq_false_iff_ne]
+      intro h
+      rw [h] at hn
+      have := congrArg List.length hn
+      simp at this
+    have hp : (nm ++ "_").toList = nm.toList ++ ['_'] := by simp [String.toList_append]
+    have hdrop : name.toList.drop (nm ++ "_").toList.length = ds ++ rest := by
+      rw [hp, hn]
+      have : nm.toList ++ '_' :: (ds ++ rest) = (nm.toList ++ ['_']) ++ (ds ++ rest) := by simp
+      rw [this, List.drop_left]
+    have hcount : segCount (ds ++ rest) = k' + 1 := by
+      unfold segCount
+      have hds : ds.filter (· == '_') = [] := by
+        rw [List.filter_eq_nil_iff]
+        intro c hc
+        simp [not_underscore_of_digit (hd c hc)]
+      rw [List.filter_append, hds, List.nil_append, underscores_good hrest]
+    rw [hne, hdrop, hcount]
+    simp
+    intro _ hle
+    omega
 
 /-! ### the specification side of C06 names the same routers -/
 
@@ -383,13 +456,13 @@ theorem lvlNodes_single (d : Desc) (nm : String) (r : RtDesc) (tree : List Nat) 
     tree called `nm` (and nothing else named like them), `get_nodes_from_lvl` returns exactly the routers the
     expected-topology function of C06 lists for that level, in the same order -/
 theorem level_selection_agrees (G : Graph) (d : Desc) (nm : String) (r : RtDesc) (tree : List Nat) (k fuel : Nat)
-    (pre post : List Node) (rpre rpost : List RtDesc)
+    (pre post : List Node) (rpre rpost : List RtDesc) (L : Nat)
     (hG : G.nodes = pre ++ treeNodes k tree fuel nm 0 ++ post) (hfuel : tree.length ≤ fuel)
-    (hpre : ∀ n ∈ pre, inTree nm n.name = false) (hpost : ∀ n ∈ post, inTree nm n.name = false)
+    (hpre : ∀ n ∈ pre, inTree nm (L : Int) n.name = false) (hpost : ∀ n ∈ post, inTree nm (L : Int) n.name = false)
     (hd : d.routers = rpre ++ r :: rpost) (hn : r.name = nm) (ht : r.tree = some tree)
-    (hrpre : ∀ x ∈ rpre, (x.name == nm) = false) (hrpost : ∀ x ∈ rpost, (x.name == nm) = false) (L : Nat) :
+    (hrpre : ∀ x ∈ rpre, (x.name == nm) = false) (hrpost : ∀ x ∈ rpost, (x.name == nm) = false) :
     nodesFromLvl G nm (L : Int) = .ok (d.lvlNodes nm (L : Int)) := by
-  rw [lvl_select_in G nm tree k fuel pre post hG hfuel hpre hpost L,
+  rw [lvl_select_in G nm tree k fuel pre post L hG hfuel hpre hpost,
       lvlNodes_single d nm r tree rpre rpost hd hn ht hrpre hrpost L]
 
 /-! non-vacuity: tree [1, 2] named `r` next to a tree `r2` -/
